@@ -15,6 +15,7 @@
 package common
 
 import (
+	"github.com/dappledger/AnnChain/gemmill/utils/verifhook"
 	"bufio"
 	"fmt"
 	"io/ioutil"
@@ -102,17 +103,26 @@ func WriteFileAtomic(filePath string, newBytes []byte, mode os.FileMode) error {
 		if err != nil {
 			return fmt.Errorf("Could not read file %v. %v", filePath, err)
 		}
+		if err := verifhook.Err("wfa.bak", []byte(filePath)); err != nil {
+			return err
+		}
 		err = ioutil.WriteFile(filePath+".bak", fileBytes, mode)
 		if err != nil {
 			return fmt.Errorf("Could not write file %v. %v", filePath+".bak", err)
 		}
 	}
 	// Write newBytes to filePath.new
+	if err := verifhook.Err("wfa.new", []byte(filePath)); err != nil {
+		return err
+	}
 	err := ioutil.WriteFile(filePath+".new", newBytes, mode)
 	if err != nil {
 		return fmt.Errorf("Could not write file %v. %v", filePath+".new", err)
 	}
 	// Move filePath.new to filePath
+	if err := verifhook.Err("wfa.rename", []byte(filePath)); err != nil {
+		return err
+	}
 	err = os.Rename(filePath+".new", filePath)
 	return err
 }
